@@ -343,6 +343,15 @@ pub fn run_check(prop: &dyn Prop, tier: Tier, seed: u64) -> RunResult {
                 // two replays must show the same violation KEYS and the same observation; the free-text detail of a
                 // violation may name a different witness where the subject itself is uncontrolled (real rayon pools)
                 let keys = |r: &ReplayOutcome| -> Vec<String> { r.violations.iter().map(|v| v.0.clone()).collect() };
+                if (keys(&a) != keys(&b) || a.observation != b.observation) && prop.irreproducibility_is_violation() {
+                    let k = format!("same-case-gives-different-results-in-two-fresh-processes@replay:{}", v.key.split('@').next().unwrap_or(""));
+                    if !keys_done.contains(&k) {
+                        keys_done.insert(k.clone());
+                        reported.push((k, path.clone(), format!("two straight-line executions of the recorded case disagree: {:?} {:?} vs {:?} {:?}", keys(&a), a.observation, keys(&b), b.observation)));
+                    }
+                    keys_done.insert(v.key.clone());
+                    continue;
+                }
                 if keys(&a) != keys(&b) || a.observation != b.observation {
                     machinery.push(format!("replay of {} is not deterministic: {:?} {:?} vs {:?} {:?}", path.display(), keys(&a), a.observation, keys(&b), b.observation));
                     continue;
@@ -350,6 +359,17 @@ pub fn run_check(prop: &dyn Prop, tier: Tier, seed: u64) -> RunResult {
                 let reproduced = a.violations.iter().any(|(k, _)| *k == v.key)
                     || (v.key.starts_with("process-abort") && a.violations.iter().any(|(k, _)| k.starts_with("process-abort")))
                     || (v.key == "non-termination" && a.violations.iter().any(|(k, _)| k == "non-termination"));
+                if !reproduced && prop.irreproducibility_is_violation() {
+                    // the explorer (one long-lived process that ran many cases before this one) saw an oracle failure
+                    // which a fresh process does not show: the result depends on what the process did before
+                    let k = format!("result-depends-on-what-the-process-ran-before@explorer-vs-fresh-process:{}", v.key.split('@').next().unwrap_or(""));
+                    if !keys_done.contains(&k) {
+                        keys_done.insert(k.clone());
+                        reported.push((k, path.clone(), format!("inside the explorer: {} ({}); the same case in a fresh process: {:?}", v.key, v.what.chars().take(200).collect::<String>(), a.violations.iter().map(|x| x.0.clone()).collect::<Vec<_>>())));
+                    }
+                    keys_done.insert(v.key.clone());
+                    continue;
+                }
                 if !reproduced {
                     machinery.push(format!(
                         "explorer reported key {} but the straight-line replay of {} does not reproduce it (replay saw {:?})",
